@@ -336,6 +336,78 @@ int runC02(int argc, char **argv)
     return 0;
 }
 
+// ======================================================================================= C02b
+// Two independently locked pipelines (the installed Logger and a bare own-thread-capable SimplePipeline), both configured through the
+// fluent keyword API, receive messages from disjoint producer sets at the same time.  Each pipeline serialises its own producers; what
+// the two must not do is share mutable state behind the caller's back.  Observations: deliveries per sink ('S' logger, 'U' bare).
+class TagSink : public Sink
+{
+public:
+    TagSink(char tag, int profile) : m_tag(tag), m_profile(profile) { }
+    void send(const LogMessage &m) override
+    {
+        const long long id = idOfLine(m.file(), m.line());
+        sinkDelay(m_profile, uint64_t(id));
+        rec(m_tag, id, 0, 0, (long long)(quintptr)QThread::currentThreadId(), hexOf(m.formattedMessage()));
+    }
+
+private:
+    char m_tag;
+    int m_profile;
+};
+
+int runC02b(int argc, char **argv)
+{
+    if (argc < 10) return 3;
+    const char *out = argv[2];
+    const std::string fmt = argv[3]; // pretty | qt | default | json
+    const int producers = atoi(argv[4]), msgs = atoi(argv[5]), profile = atoi(argv[6]);
+    vhook::configureFromString(argv[7]);
+    setAffinity(atoi(argv[8]));
+    const unsigned long long seed = strtoull(argv[9], nullptr, 10);
+    OwnThreadHandler<SimplePipeline> bare;
+    auto build = [&](SimplePipeline &p, char tag) {
+        p.addSeqNumber();
+        if (fmt == "json")
+            p.formatToJson(true);
+        else
+            p.format(QString::fromStdString(fmt));
+        p.append(QSharedPointer<TagSink>::create(tag, profile));
+    };
+    build(gQtLogger, 'S');
+    build(bare, 'U');
+    gQtLogger.installMessageHandler();
+    std::atomic<int> ready { 0 };
+    std::vector<std::thread> th;
+    std::vector<std::string> files;
+    files.resize(size_t(producers));
+    for (int p = 0; p < producers; ++p) files[size_t(p)] = "p" + std::to_string(p);
+    for (int p = 0; p < producers; ++p) {
+        th.emplace_back([&, p]() {
+            std::mt19937_64 rng(seed * 1000003ULL + uint64_t(p));
+            ready.fetch_add(1);
+            while (ready.load() < producers) std::this_thread::sleep_for(std::chrono::microseconds(200));
+            const char *file = files[size_t(p)].c_str();
+            for (int i = 0; i < msgs; ++i) {
+                const long long id = (long long)p * 1000000LL + i;
+                rec('C', id, ticket(), p % 2);
+                if (p % 2 == 0) {
+                    QMessageLogger(file, i, "fn", "app").info("msg %lld", id);
+                } else {
+                    QMessageLogContext ctx(file, i, "fn", "app");
+                    LogMessage m(QtInfoMsg, ctx, QStringLiteral("msg %1").arg(id));
+                    bare.process(m);
+                }
+                rec('R', id, ticket());
+                if ((rng() & 31) == 0) sched_yield();
+            }
+        });
+    }
+    for (auto &t : th) t.join();
+    dump(out);
+    return 0;
+}
+
 // ======================================================================================= C03
 std::vector<std::atomic<int>> *g_returned = nullptr; // per message: the producer's call has returned
 int g_msgsPerProducer = 0;
@@ -406,7 +478,16 @@ int runC03(int argc, char **argv)
     const int cores = atoi(argv[8]);
     const unsigned long long seed = strtoull(argv[9], nullptr, 10);
     const int burst = atoi(argv[10]);
+    const std::string variant = argc > 11 ? argv[11] : "plain"; // plain | early | twohop
     setAffinity(cores);
+    OwnThreadHandler<Pipeline> bare;
+    if (variant == "early") {
+        // the logger is moved to its own thread as the first statement of main(), before the application object exists
+        if (target == "logger")
+            gQtLogger.moveToOwnThread();
+        else
+            bare.moveToOwnThread();
+    }
     QCoreApplication app(argc, argv);
     g_msgsPerProducer = msgs;
     const size_t totalMsgs = size_t(producers) * size_t(msgs);
@@ -419,18 +500,33 @@ int runC03(int argc, char **argv)
         rec('H', idOfLine(m.file(), m.line()), ticket(), QThread::currentThread() == g_own ? 1 : 0);
         return true;
     });
-    OwnThreadHandler<Pipeline> bare;
+    // twohop: the sink sits behind a SECOND own-thread stage inside the pipeline, so every message is copied once more, this time by
+    // the first stage's thread
+    auto second = QSharedPointer<OwnThreadHandler<Pipeline>>::create();
+    if (variant == "twohop") {
+        second->append(probe);
+        second->append(QSharedPointer<AsyncSink>::create(profile));
+        second->moveToOwnThread();
+    }
     if (target == "logger") {
-        gQtLogger.append(probe);
-        gQtLogger.append(QSharedPointer<AsyncSink>::create(profile));
+        if (variant == "twohop") {
+            gQtLogger.append(second);
+        } else {
+            gQtLogger.append(probe);
+            gQtLogger.append(QSharedPointer<AsyncSink>::create(profile));
+        }
         gQtLogger.moveToOwnThread();
-        g_own = gQtLogger.ownThread();
+        g_own = variant == "twohop" ? second->ownThread() : gQtLogger.ownThread();
         gQtLogger.installMessageHandler();
     } else {
-        bare.append(probe);
-        bare.append(QSharedPointer<AsyncSink>::create(profile));
+        if (variant == "twohop") {
+            bare.append(second);
+        } else {
+            bare.append(probe);
+            bare.append(QSharedPointer<AsyncSink>::create(profile));
+        }
         bare.moveToOwnThread();
-        g_own = bare.ownThread();
+        g_own = variant == "twohop" ? second->ownThread() : bare.ownThread();
     }
     rec('O', (long long)(quintptr)g_own, 0);
 
@@ -496,6 +592,7 @@ int runC03(int argc, char **argv)
         gQtLogger.resetOwnThread();
     else
         bare.resetOwnThread();
+    if (variant == "twohop") second->resetOwnThread();
     rec('Z', ticket());
     vhook::setObserver(nullptr);
     dump(out);
@@ -524,6 +621,7 @@ int main(int argc, char **argv)
         }
     }).detach();
     if (mode == "c02") return runC02(argc, argv);
+    if (mode == "c02b") return runC02b(argc, argv);
     if (mode == "c03") return runC03(argc, argv);
     return 3;
 }
